@@ -172,6 +172,20 @@ def stream_unpack(rnd, env, st, n, op='UNPACK'):
             drop = rnd.choice(own if own and rnd.random() < 0.5 else reqs) if reqs else None
             o = casegen.Opts(rnd, shuffle=rnd.random() < 0.3, lead_unknown=rnd.random() < 0.6, drop=drop)
             bs = casegen.encode(env, m, o); k = 'required-dropped' if drop else 'leading-unknown'
+        elif r < 0.975:
+            # a packed payload holding an over-long varint (9..22 continuation bytes), alone or between valid elements
+            reps = [(md.idx, f) for md in env.msgs for f in md.fields if f.label == 'REP' and f.type in casegen.SCALARS]
+            if reps:
+                d, f = rnd.choice(reps)
+                pay = []
+                for _ in range(rnd.randint(0, 2)):
+                    pay += casegen.varint(rnd.getrandbits(rnd.choice([1, 7, 14, 32, 64])))
+                pay += [0x80 | rnd.randint(0, 127) for _ in range(rnd.choice([9, 10, 10, 11, 12, 22]))] + [rnd.randint(0, 127)]
+                for _ in range(rnd.randint(0, 2)):
+                    pay += casegen.varint(rnd.getrandbits(rnd.choice([1, 7, 32])))
+                bs = casegen.key(f.id, 2) + casegen.lenpref(len(pay)) + pay; k = 'packed-overlong-varint'
+            else:
+                bs = [rnd.randint(0, 255) for _ in range(rnd.randint(0, 40))]; k = 'random'
         else:
             bs = [rnd.randint(0, 255) for _ in range(rnd.randint(0, 40))]; k = 'random'
         l = '%s %d %s' % (op, d, casegen.hexs(bs))
@@ -1136,6 +1150,9 @@ def alloc_check(pid, tier, seed):
                 bs = casegen.encode(env, m, casegen.Opts(rnd, shuffle=rnd.random() < 0.3, bad_later=True))
             else:
                 bs = casegen.encode(env, m, casegen.CANON)
+            inputs.append((d, casegen.hexs(bs)))
+        # systematically: a selected oneof member released, then the replacing member rejected (every ordered pair of members)
+        for d, bs in casegen.oneof_replacement_failures(rnd, env, 12 if tier == 'quick' else 40):
             inputs.append((d, casegen.hexs(bs)))
         base = ['UNPACKT %d %s -' % (d, h) for d, h in inputs]
         rc, b_out, b_err = run_driver(ctx.impl, env.text() + '\n'.join(base) + '\n', pid.lower() + 'b')
